@@ -27,6 +27,7 @@ from concurrent.futures.process import BrokenProcessPool
 from . import REPO, VERIF, canon, seeds
 
 HARNESS_EXIT = 2
+DIGEST_CAP = 6000000     # the parent keeps the distinct-case digests in memory; beyond this the count is a lower bound
 
 
 class HarnessError(Exception):
@@ -46,7 +47,15 @@ def warm_up():
     from . import seams, sched
     seams.install()
     sched.install_lock_seam()
-    hotxlfp.Parser()
+    # one construction and one evaluation in this single process: whatever the tree builds lazily (PLY's LALR tables
+    # and their cache file above all) now exists, before any worker is forked
+    hotxlfp.Parser().parse('1')
+    # file-system seam: from here on nobody rewrites PLY's shared table cache.  Without it an injected asynchronous
+    # exception landing inside yacc's table loading (possible once a tree builds its grammar lazily, inside an
+    # evaluation) makes PLY regenerate and rewrite the file non-atomically while 16 other processes import it
+    import ply.yacc as _yacc
+    _yacc.LRGeneratedTable.write_table = lambda self, *a, **k: None
+    _yacc.LRGeneratedTable.pickle_table = lambda self, *a, **k: None
     return hotxlfp
 
 
@@ -254,6 +263,9 @@ def run_check(prop, tier, seed=None, workers=None, out=sys.stdout):
             for name, fn_name, arg in mod.single_process_tasks(tier, seed, cfg):
                 f = ex.submit(_call, prop, fn_name, arg)
                 futs[f] = ('task:' + name, 0, 0)
+        # chunks of all streams are submitted round-robin, so that a wall-cap truncation thins every stream
+        # out proportionally instead of starving the streams listed last
+        queues = []
         for stream, sizes in mod.STREAMS.items():
             n = int(sizes[tier] * scale)
             if n <= 0:
@@ -261,12 +273,16 @@ def run_check(prop, tier, seed=None, workers=None, out=sys.stdout):
             planned += n
             per_stream[stream] = {'planned': n, 'done': 0}
             csize = max(1, min(sizes.get('chunk', 2000), -(-n // (workers * 4))))
-            first = True
-            for lo in range(0, n, csize):
-                hi = min(n, lo + csize)
-                f = ex.submit(_chunk, prop, stream, seed, tier, lo, hi, cfg, statedir, 2 if first else 0)
+            queues.append([(stream, lo, min(n, lo + csize)) for lo in range(0, n, csize)])
+        seen_first = set()
+        while any(queues):
+            for q in queues:
+                if not q:
+                    continue
+                stream, lo, hi = q.pop(0)
+                f = ex.submit(_chunk, prop, stream, seed, tier, lo, hi, cfg, statedir, 2 if stream not in seen_first else 0)
+                seen_first.add(stream)
                 futs[f] = (stream, lo, hi)
-                first = False
         pending = set(futs)
         grace_until = None
         while pending:
@@ -283,7 +299,10 @@ def run_check(prop, tier, seed=None, workers=None, out=sys.stdout):
                         found.append((sc, vs))
                     continue
                 _merge(total, r['stats'])
-                digests.update(r['digests'])
+                if len(digests) < DIGEST_CAP:
+                    digests.update(r['digests'])
+                else:
+                    total['distinct_digests_not_counted_beyond_cap'] += len(r['digests'])
                 reach.update(r['reach'])
                 for nm, items in r.get('sets', {}).items():
                     allsets.setdefault(nm, set()).update(items)
